@@ -27,7 +27,9 @@ func init() {
 		RequiredCounters: []string{"correct_results_accepted", "wrong_results_rejected", "boundary_255_proofs", "boundary_256_proofs", "reference_verifier_decisions", "error_path_calls_before_honest_ones"},
 		Assumptions:      []string{"the commitment is the library's Commit (C05's subject)", "a random forgery verifying is treated as impossible"},
 		Plan: func(tier string) []Child {
-			return shardsVar(pick(tier, 12, 16), Child{Flavour: "plain", NCPU: 1})
+			out := shardsVar(pick(tier, 12, 16), Child{Flavour: "plain", NCPU: 1})
+			out[5].GOMAXPROCS, out[7].GOMAXPROCS = 100, 65 // GOMAXPROCS far above NumCPU (and above the 64 windows of the small MSMs)
+			return out
 		},
 		Run: runC04,
 	})
